@@ -116,6 +116,16 @@ class SimRun:
 
         SCHEDULING_ALGOS[key] = rec_algo
         exmod.Executor.run_one_tick = rec_tick
+        from eudoxia.scheduler import Scheduler
+        orig_sched_init = Scheduler.__init__
+        if r.get('lean_sched'):
+            # a Scheduler built the way the unit tests build it: only the keyword arguments its algorithm documents,
+            # without the executor's pool sizes (the schedulers read those from the executor)
+            def lean_init(self_, executor, scheduler_algo, **kw):
+                for k in ('cpus_per_pool', 'ram_gb_per_pool', 'num_pools'):
+                    kw.pop(k, None)
+                return orig_sched_init(self_, executor, scheduler_algo, **kw)
+            Scheduler.__init__ = lean_init
         try:
             self.stats = run_simulator(params, workload=wl)
         except BaseException as e:  # noqa
@@ -127,6 +137,7 @@ class SimRun:
         finally:
             SCHEDULING_ALGOS[key] = orig_algo
             exmod.Executor.run_one_tick = orig_tick
+            Scheduler.__init__ = orig_sched_init
         for t, d in enumerate(self.ticks):
             d['new'] = wl.delivered[t] if t < len(wl.delivered) else []
             order = [k for _, k in r['arrivals']]          # outstanding_pipelines is insertion (arrival) ordered
